@@ -9,37 +9,30 @@ open MahfModel.Log
 section Logger
 variable {N V : Type} [DecidableEq N]
 
-/-- One logger execution (no trigger fails, a loop counter `it` exists): rules are evaluated in order;
-the log grows by exactly one step holding the first fired entry of every name, preceded by the
-iteration entry unless a rule logged that name itself — or by nothing at all if no trigger fired.
-(`_partial`: the region "no loop counter reachable" is excluded, see `logger_noloop_violates`.) -/
-theorem logger_step_partial (iterName : N) (rules : List (Rule N V)) (it : V) (log : Log N V)
+/-- One logger execution (no trigger fails), in ANY state — with a loop counter (`it = some v`) or
+without one: rules are evaluated in order; the log grows by exactly one step holding the first fired
+entry of every name, preceded by the iteration entry unless a rule logged that name itself or no
+counter exists — or by nothing at all if no trigger fired. It never panics. -/
+theorem logger_step (iterName : N) (rules : List (Rule N V)) (it : Option V) (log : Log N V)
     (h : ∀ r ∈ rules, r.trig = .fire ∨ r.trig = .skip) :
-    loggerExec iterName rules (some it) log = .ok (log ++ (specStep iterName rules it).toList) :=
+    loggerExec iterName rules it log = .ok (log ++ (specStepO iterName rules it).toList) :=
   loggerExec_of_noFail iterName rules it log h
 
-/-- The full statement (any state, with or without a loop counter) — it does NOT hold for the code. -/
-def logger_step_full : Prop :=
-  ∀ (rules : List (Rule String Nat)) (it : Option Nat) (log : Log String Nat),
-    (∀ r ∈ rules, r.trig = .fire ∨ r.trig = .skip) →
-    execHolds rules it log (loggerExec iterName rules it log) = true
-
-/-- Counterexample (known finding): a `Logger` whose rule fires in a configuration without any
-`Loop` panics in `push_iteration` instead of appending the step. -/
-theorem logger_noloop_violates :
-    execHolds [⟨.fire, "c15::X", none⟩] none [] (loggerExec iterName [⟨.fire, "c15::X", none⟩] none []) = false := by
-  decide
-
-theorem logger_step_full_fails : ¬ logger_step_full := by
-  intro h
-  have := h [⟨.fire, "c15::X", none⟩] none [] (by intro r hr; simp at hr; subst hr; exact Or.inl rfl)
-  rw [logger_noloop_violates] at this
-  cases this
-
-/-- The same at program level: the program `[Logger]` with the rule (always, IdLens<X>) panics. -/
-theorem program_noloop_violates :
-    runProgram 10 (some [⟨.always, .xId⟩]) (.cons .log .nil) = .error .panic := by
-  decide
+/-- The iteration entry: in front with the counter's value if a counter exists and no rule logged
+the name; absent if no counter exists (and no rule logged the name). -/
+theorem iteration_entry (iterName : N) (rules : List (Rule N V)) (it : Option V) (st : Step N V)
+    (h : specStepO iterName rules it = some st) (hn : contains (dedup (fired rules)) iterName = false) :
+    (∀ v, it = some v → st = (iterName, some v) :: dedup (fired rules)) ∧
+    (it = none → st = dedup (fired rules) ∧ lookup st iterName = none) := by
+  simp only [specStepO] at h
+  split at h
+  · cases h
+  · simp only [hn, Bool.false_eq_true, if_false] at h
+    constructor
+    · intro v hv; subst hv; simp only [Option.some.injEq] at h; exact h.symm
+    · intro hv; subst hv; simp only [Option.some.injEq] at h
+      subst h
+      exact ⟨rfl, (lookup_none_iff _ _).2 ((contains_false_iff _ _).1 hn)⟩
 
 /-- What a step contains: the first fired rule of a name wins, every name occurs once. -/
 theorem step_first_rule_wins (rules : List (Rule N V)) (n : N) :
@@ -58,7 +51,7 @@ theorem step_names_nodup (iterName : N) (rules : List (Rule N V)) (it : Option V
     · cases h; exact hnd
     · rename_i hc
       cases it with
-      | none => cases h
+      | none => cases h; exact hnd
       | some v =>
         cases h
         simp only [List.map_cons, List.nodup_cons]
@@ -100,8 +93,9 @@ theorem triggers_once (env : Env) (rs : List RuleSt) (s : Step String Nat) :
     ((∀ r ∈ resolve env rs, r.trig = .fire ∨ r.trig = .skip) → (evalRules env rs s).2 = advance env rs) :=
   ⟨evalRules_fst env rs s, evalRules_snd env rs s⟩
 
-/-- For every program of the language (any nesting of blocks, loops, scopes, any logger placement):
-a run that completes leaves the log = concatenation of the steps of its logger executions. -/
+/-- For every program of the language (any nesting of blocks, loops, branches, scopes, any logger
+placement, loop-free programs included): a run that completes leaves the log = concatenation of
+the steps of its logger executions. -/
 theorem program_log_is_concat (fuel : Nat) (rules : Option (List RuleSt)) (prog : Nodes) (s : St)
     (h : runProgram fuel rules prog = .ok s) :
     s.log = s.trace.filterMap (fun e => specStepO iterName e.1 e.2) := by
@@ -187,6 +181,11 @@ example : ∀ r ∈ ([⟨.fire, "a", some 1⟩, ⟨.skip, "b", none⟩, ⟨.fire
     r.trig = .fire ∨ r.trig = .skip := by decide
 example : loggerExec "it" ([⟨.fire, "a", some 1⟩, ⟨.skip, "b", none⟩, ⟨.fire, "a", some 2⟩, ⟨.fire, "c", none⟩] : List (Rule String Nat))
     (some 4) [] = .ok [[("it", some 4), ("a", some 1), ("c", none)]] := by decide
+example : loggerExec "it" ([⟨.fire, "a", some 1⟩, ⟨.fire, "c", none⟩] : List (Rule String Nat)) none []
+    = .ok [[("a", some 1), ("c", none)]] := by decide
+example : (match runProgram 10 (some [⟨.always, .xId⟩]) (.cons .log (.cons (.setx 2) (.cons .log .nil))) with
+    | .ok s => s.log == [[("c15::X", none)], [("c15::X", some 2)]]
+    | .error _ => false) = true := by decide
 example : ∀ s ∈ ([[("it", some 0), ("a", some 1)], [("a", none), ("it", some 1), ("b", some 2)]] : Log String Nat),
     (s.map Prod.fst).Nodup := by decide
 example : (compress ([[("it", some 0), ("a", some 1)], [("a", none), ("it", some 1), ("b", some 2)]] : Log String Nat)).names
@@ -196,6 +195,6 @@ example : (match runProgram 100 (some [⟨.every 2, .xId⟩, ⟨.always, .named 
     | .ok s => s.log == [[("mahf::state::common::Iterations", some 0), ("c15::X", some 0), ("n1", some 0)],
                          [("mahf::state::common::Iterations", some 1), ("n1", some 1)],
                          [("mahf::state::common::Iterations", some 2), ("c15::X", some 2), ("n1", some 2)]]
-    | .error _ => false) = true := by decide
+    | .error _ => false) = true := by decide +kernel
 
 end MahfModel.Props.C15
